@@ -38,6 +38,10 @@ type Model struct {
 	St    *Stats
 	pre   *pre
 
+	// SnapRoot: directory whose snapshot is compared around mutating requests (default Root). Concurrent
+	// sessions set it to their private subtree.
+	SnapRoot string
+
 	// OpenMayFail: opening this existing regular file may legitimately fail (C11 don't-care: a key applies
 	// but the content has no valid region table).
 	OpenMayFail func(clean string) bool
@@ -178,6 +182,13 @@ func pathUsable(p string) bool {
 
 // ---- the step function ----------------------------------------------------
 
+func (m *Model) snapDir() string {
+	if m.SnapRoot != "" {
+		return m.SnapRoot
+	}
+	return m.Root
+}
+
 func (m *Model) lenient() bool { return m.Lenient != nil && m.Lenient() }
 
 func (m *Model) tr(format string, a ...any) {
@@ -266,7 +277,7 @@ func (m *Model) observe(r Req) *pre {
 		}
 	}
 	if m.AllowWrite && (r.Op == "DELETE" || r.Op == "RMDIR" || r.Op == "MKDIR" || (r.Op == "CREATE" && p.escapes)) {
-		p.snap, _ = Snapshot(m.Root)
+		p.snap, _ = Snapshot(m.snapDir())
 	}
 	if r.Op == "WRITE" && m.wo.open {
 		if fi, err := os.Stat(m.wo.path); err == nil {
@@ -394,7 +405,7 @@ func (m *Model) checkEscaping(c *Conn, r Req, pr *pre, n int, what string) error
 		return failf("fault-outcome", "%s after an injected fault: reply %x is neither the correct reply (%s) nor the failure code", what, head(raw, 40), msg)
 	}
 	if okNE && mutating[r.Op] && m.AllowWrite && pr.snap != nil {
-		after, _ := Snapshot(m.Root)
+		after, _ := Snapshot(m.snapDir())
 		if d := DiffSnap(pr.snap, after, false); d != "" {
 			okNE = false
 			errClamp = failf("confinement", "%s answered 'non-existent' but the root changed: %s (clamped-form check: %v)", what, d, errClamp)
@@ -1478,8 +1489,8 @@ func (m *Model) remove(c *Conn, r Req, pr *pre, what string) error {
 	if !usable {
 		aerr = os.ErrNotExist
 	}
-	snapAfter, _ := Snapshot(m.Root)
-	rel, _ := filepath.Rel(m.Root, real)
+	snapAfter, _ := Snapshot(m.snapDir())
+	rel, _ := filepath.Rel(m.snapDir(), real)
 	if res == 0 {
 		if berr != nil {
 			return failf("remove-truth", "%s reported success for missing %s", what, clean)
@@ -1529,8 +1540,8 @@ func (m *Model) mkdir(c *Conn, r Req, pr *pre, what string) error {
 		}
 		return nil
 	}
-	snapAfter, _ := Snapshot(m.Root)
-	rel, _ := filepath.Rel(m.Root, real)
+	snapAfter, _ := Snapshot(m.snapDir())
+	rel, _ := filepath.Rel(m.snapDir(), real)
 	if res == 0 {
 		fi, aerr := os.Lstat(real)
 		if aerr != nil || !fi.IsDir() {
